@@ -63,6 +63,10 @@ def base_spec(rng):
             field["example"] = tabular.FIELD_KINDS[field["type"]][2][0]
             if field["type"] == "Decimal" and fmt == "delimited":
                 field["example"] = None
+    if rng.random() < 0.15:
+        # a sound CID with limits of 15 digits: the length must be consistent with the rule
+        fields.append({"name": "bignumber", "type": "Integer", "rule": "0{sep}999999999999999", "length": "1{sep}15", "width": 15,
+                       "example": "999999999999999"})
     if fmt != "fixed" and rng.random() < 0.2:
         # a sound CID whose example fits its field only together with its trailing blank
         fields.append({"name": "padded", "type": "Text", "length": "3", "example": "ab "})
@@ -279,6 +283,24 @@ def _d26(rows, index):
 @defect("distinctcount-broken-expression", "c-DistinctCount")
 def _d28(rows, index):
     rows[index][3] = rows[index][3].split()[0] + " >"
+    return index
+
+
+@defect("distinctcount-attribute-of-count", "c-DistinctCount")
+def _d31(rows, index):
+    rows[index][3] = rows[index][3].split()[0] + ".count < 5"  # the count is a number, it has no attribute
+    return index
+
+
+@defect("distinctcount-index-out-of-range", "c-DistinctCount")
+def _d32(rows, index):
+    rows[index][3] = rows[index][3].split()[0] + " < [10, 20][2]"
+    return index
+
+
+@defect("distinctcount-unknown-key", "c-DistinctCount")
+def _d33(rows, index):
+    rows[index][3] = rows[index][3].split()[0] + " < {1: 2}[3]"
     return index
 
 
